@@ -8,10 +8,8 @@ CONSTANTS
   BugStaleAfterDelete = FALSE
   BugGetNoAcquire = FALSE
   BugWakeAllOnError = FALSE
-  BugLeakOnCancel = FALSE
+  BugLeakOnCancel = TRUE
 INVARIANT SingleFlight
 INVARIANT OneTurn
 INVARIANT NoStaleRead
-INVARIANT ReadEntryReleased
-INVARIANT RefsExact
 CHECK_DEADLOCK FALSE
